@@ -193,6 +193,16 @@ def run(ctx, rep):
     # sequence sites are discharged by the sort, provided their loop bodies only push diagnostics (C06 L) on distinct ranges
     for p, f, t, where in seq_sites:
         allowed = p in ("validation::check_imports", "validation::check_declared_parcelables")
+        if not allowed:
+            # a loop whose only effect is inserting into a fresh map is `collect` into a map written by hand: same rule, same key
+            cls = loop_collects_into_map(facts, p)
+            if cls is not None:
+                okd, why = cls
+                rep.check(okd, "A6", "C11|A6|%s|collect-into-map" % p, where,
+                          "collecting hash-ordered entries into a map keeps a deterministic result only if the produced keys are pairwise distinct (otherwise the last writer in hash order wins): %s" % why,
+                          witness="two files that both define `p.Foo` with different kinds: the kind registered for `p.Foo` depends on hash order" if not okd else None,
+                          sample={"site": where, "call": "for + insert", "class": "keys provably distinct: " + why})
+                continue
         rep.check(allowed and sort_ok, "A6", "C11|A6|%s|for-loop" % p, where,
                   "a `for` loop over a hash container emits its effects in hash order: accepted only for the two classification loops whose effects are diagnostics on distinct entries (C06 rule L), re-ordered by the final position sort (rule S: %s)" % ("holds" if sort_ok else "VIOLATED"),
                   sample={"site": where, "class": "sequence discharged by the stable sort on start position"})
@@ -233,6 +243,40 @@ def run(ctx, rep):
                         "TB-2 order of syntax diagnostics of tree-less files is lalrpop's emission order (NOT decided)",
                         "Annotation.key_values is compared with HashMap's order-insensitive ==; serialised text is outside this property"]
     rep.not_decided.append("that lalrpop emits recovery errors left to right (TB-2); rule S3 decides only that each one is reported where lalrpop puts it")
+
+
+def loop_collects_into_map(facts, p):
+    """(keys_distinct, why) when the loop(s) of function p only insert into a map created in p; None otherwise"""
+    f = facts.fns[p]
+    try:
+        args = [sym_ref("arg%d" % i) for i in range(len(f.get("inputs") or []))]
+        elem = AdtVal("tuple", None, {0: Cell(Opaque("ENTRY_KEY")), 1: Cell(Opaque("ENTRY_VALUE"))})
+        paths = Machine(facts, loop_once=True, on_next=lambda il: (elem if "::values(" not in fmt_label(il) and "::keys(" not in fmt_label(il) else Opaque("ENTRY_VALUE" if "::values(" in fmt_label(il) else "ENTRY_KEY"))).run(p, args)
+    except (Unsupported, KeyError):
+        return None
+    keys = set()
+    for path in paths:
+        for e in path.effects:
+            if e[0] in ("next", "next_end", "iterate", "iterate_end"):
+                continue
+            if e[0] == "call":
+                nm = e[1]
+                if ("HashMap" in nm or "HashSet" in nm) and nm.endswith("::insert"):
+                    base = fmt_label(e[2][0])
+                    if "::new(" in base or "::with_capacity(" in base or base.endswith("::new()"):
+                        keys.add(fmt_label(e[2][1]))
+                        continue
+                    return None
+                if nm.endswith(">::new") or nm.endswith(">::with_capacity") or nm.endswith("::values") or nm.endswith("::iter") or nm.endswith("::keys") or nm.endswith("::into_iter") or nm.endswith("::len"):
+                    continue
+                if facts.fns.get(nm) is None and not nm.startswith("std::") and not nm.startswith("<"):
+                    return None
+                continue   # pure local / std getters feeding the key or the value
+            return None
+    if not keys:
+        return None
+    distinct = keys == set(["ENTRY_KEY"])
+    return distinct, ("the inserted key is the iterated entry's own key" if distinct else "inserted key(s) %s are computed from the entry's value, not its (unique) key" % sorted(keys))
 
 
 def callee_name(t):
